@@ -176,7 +176,8 @@ fn run_case(case: &str, dirs: &DirectiveList) -> String
 			{
 				if let Bind::Later(v) = b { ctx.insert_constant(n, *v, Realm::Global).expect("insert_constant (deferred)"); }
 			}
-			let r2 = match &r1 { Ok((Ok(_), t1)) => fmt_eval(&run_eval(t1, &ctx)), _ => "-".to_string() };
+			// between the stages the real assembler keeps a copy of the statement made with into_owned()
+			let r2 = match &r1 { Ok((Ok(_), t1)) => { let kept = catch(AssertUnwindSafe(|| t1.clone().into_owned())); match kept { Ok(k) => fmt_eval(&run_eval(&k, &ctx)), Err(_) => "panic".to_string() } }, _ => "-".to_string() };
 			let r3 = run_eval(&a, &ctx);
 			let s = catch(AssertUnwindSafe(|| { let mut a2 = a.clone(); let r = simplify(&mut a2); (r, a2) }));
 			let r4 = match s
@@ -365,6 +366,27 @@ fn main()
 				emit(format!("S {}", fmt_arg(&bin(5, bin(5, id("R0"), c(3)), c(5)))), &mut out);
 				emit(format!("G {} ; {}", env1("X", "L5"), fmt_arg(&f10)), &mut out);
 				emit(format!("G {} ; {}", env1("X", "L4"), fmt_arg(&f11)), &mut out);
+				// every two-level chain `(X op1 c1) op2 c2` and `c2 op2 (c1 op1 X)` over the corner constants (the symbolic merge
+				// of two constants happens before X is known), with X known later at a corner value; c1 literal or a known name
+				{
+					let ks: [i64; 11] = [i64::MIN, i64::MIN + 1, -3, -1, 0, 1, 3, 1 << 32, 1 << 62, i64::MAX - 1, i64::MAX];
+					let xs: [i64; 6] = [10, i64::MIN, i64::MAX, -1, 0, 1 << 33];
+					let mut k = 0usize;
+					for op1 in 0..10 { for op2 in 0..10 { for &c1 in &ks { for &c2 in &ks
+					{
+						k += 1;
+						// quick tier: a third of the grid, rotating with the seed
+						if !thorough && (k + seed as usize) % 3 != 0 { continue; }
+						for &xv in &xs
+						{
+							let named = k % 4 == 0;
+							let c1a = if named { id("M") } else { c(c1) };
+							let t = if k % 2 == 0 { bin(op2, bin(op1, id("X"), c1a), c(c2)) } else { bin(op2, c(c2), bin(op1, c1a, id("X"))) };
+							let env = if named { format!("{} {}", env1("X", &format!("L{}", hex_i64(xv))), env1("M", &format!("F{}", hex_i64(c1)))) } else { env1("X", &format!("L{}", hex_i64(xv))) };
+							emit(format!("G {} ; {}", env, fmt_arg(&t)), &mut out);
+						}
+					}}}}
+				}
 				// audit corpus: Sequence / Function / Address nodes (the random trees have none but the leaf [R1]): the try_fold arms
 				// of neutralize, simplify and evaluate (first error wins, first deferral cause wins, no raw step on the list node
 				// itself), Address around an expression and around an ill-typed operand, list nodes as operands
